@@ -166,3 +166,56 @@ claim("C09",
       "reservation of Dict areas and computed values. Does not decide "
       "operation histories.",
       "finite-domain folding + call-site table check + CFG dominance")
+
+claim("C14",
+      "AL state codes/order/registers against ETG.1000; on the CFG of "
+      "to_operational: acknowledge first and then start from the constant "
+      "INIT, `state >= target` return test dominates every request, walk "
+      "over the states after the start state, polling until the requested "
+      "state with the error test on every path from a poll to the next "
+      "request. Does not decide terminal behaviours over time.",
+      "CFG dominance / must-pass-through + reaching definitions + enum "
+      "constant folding")
+claim("C15",
+      "lock-held call graph: every mbx_send/mbx_recv/next_counter call lies "
+      "in an `async with mbx_lock` region or in a function whose callers "
+      "all do (fixpoint); send and receive in one region; counter cycle of "
+      "both lock classes folded over 0..7; cross-process section order "
+      "(read after lock, write-back before unlock on every exit). In-process "
+      "exclusion and the creation window are recorded findings. Does not "
+      "explore interleavings.",
+      "call-graph lock-state analysis + finite-domain folding + CFG "
+      "edge-filtered reachability")
+claim("C16",
+      "payload/response taint by reaching definitions, send+receive on every "
+      "trip of the segment loops, accumulator type, symbolic message-size "
+      "bound against the mailbox, every received mail type-checked before "
+      "it is parsed (edge-filtered reachability), in/out mailbox attribute "
+      "separation, lock held over the exchange. The segmented paths are "
+      "recorded findings. Does not decide byte-for-byte equality.",
+      "reaching definitions (two-taint) + CFG must-pass-through + linear "
+      "size bounds")
+claim("C17",
+      "word/byte units of the SII reader, end-of-walk condition, busy "
+      "polling with status and data from the same read (reaching "
+      "definitions), record strides vs struct sizes, sync-manager mode "
+      "table extraction, bit position advancing on every path of the entry "
+      "loop, entry mapping folded over sizes. Does not decode images.",
+      "CFG must-pass-through + reaching definitions + decision-table "
+      "extraction + constant folding")
+claim("C18",
+      "reserve-then-advance in both allocate() implementations, region "
+      "carried by the very next datagram of the right direction, offset "
+      "composition in SyncGroupBase.allocate/append_fmmu, window constants "
+      "(MAXSIZE <= inc, 2*inc <= step), Packet.append accounting as linear "
+      "forms, single writer of packet size. Does not parse frames.",
+      "statement-order rules on allocators + constant relations + linear "
+      "normal forms")
+claim("C19",
+      "one start for both paths (+ Ethernet header on the program path), "
+      "same width/bit encodings, program-side bit mask folded over field "
+      "shapes, descriptor offset resolution with StructDesc.__init__ folded "
+      "incl. explicit zeros, cached accessor closures capture only the "
+      "position (free-variable analysis). Does not compare frame bytes.",
+      "pattern rules + finite-domain folding + free-variable analysis of "
+      "closures")
